@@ -563,6 +563,12 @@ def truth_transfer(node, env):
                     env[a.target.id] = (True, ('INT', min(2, oldv[1][1] + 1)))
                 else:
                     env.pop(a.target.id, None)
+        elif isinstance(a, ast.Expr) and isinstance(a.value, ast.Call) and isinstance(a.value.func, ast.Attribute) and \
+                isinstance(a.value.func.value, ast.Name) and a.value.func.attr in ('append', 'add', 'insert'):
+            env[a.value.func.value.id] = (True, None)       # a container that received an element is non-empty
+        elif isinstance(a, ast.Expr) and isinstance(a.value, ast.Call) and isinstance(a.value.func, ast.Attribute) and \
+                isinstance(a.value.func.value, ast.Name) and a.value.func.attr in ('pop', 'remove', 'clear', 'extend', 'update', 'discard'):
+            env.pop(a.value.func.value.id, None)
         elif isinstance(a, (ast.Import, ast.ImportFrom, ast.Delete)):
             for n in ast.walk(a):
                 if isinstance(n, ast.Name):
